@@ -889,8 +889,8 @@ func (c *control) dirInt(colon, at bool, params []any, base int) {
 		expanded = append(expanded, out[prev:]...)
 		out = expanded
 	}
-	if len(out) < mincol {
-		mincol -= len(out)
+	if width := utf8.RuneCount(out); width < mincol {
+		mincol -= width
 		for ; 0 < mincol; mincol-- {
 			c.out = append(c.out, padchar...)
 		}
@@ -1342,10 +1342,11 @@ func (c *control) dirAS(colon, at bool, params []any, p *slip.Printer) {
 	colinc = c.getIntParam(1, params, colinc, true)
 	minpad = c.getIntParam(2, params, minpad, true)
 	padchar = c.getCharParam(3, params, padchar)
+	width := utf8.RuneCount(out) + minpad // columns are characters, not bytes
 	for ; 0 < minpad; minpad-- {
 		pad = append(pad, padchar...)
 	}
-	for len(out)+len(pad) < mincol {
+	for ; width < mincol; width += colinc {
 		for i := colinc; 0 < i; i-- {
 			pad = append(pad, padchar...)
 		}
@@ -1378,12 +1379,7 @@ func (c *control) dirT(colon, at bool, params []any) {
 		}
 		c.out = append(c.out, spaces[:colnum]...)
 		start = bytes.LastIndexAny(c.out, "\n\r\f")
-		if start < 0 {
-			from = len(c.out)
-		} else {
-			start++
-			from = len(c.out) - start
-		}
+		from = utf8.RuneCount(c.out[start+1:])
 		if from == from/colinc*colinc {
 			target = from
 		} else {
@@ -1391,12 +1387,7 @@ func (c *control) dirT(colon, at bool, params []any) {
 		}
 	} else {
 		start = bytes.LastIndexAny(c.out, "\n\r\f")
-		if start < 0 {
-			from = len(c.out)
-		} else {
-			start++
-			from = len(c.out) - start
-		}
+		from = utf8.RuneCount(c.out[start+1:])
 		target = colnum * colinc
 		if target < from {
 			target = from/colinc*colinc + colinc
